@@ -262,7 +262,11 @@ where
     for (&x, &w) in arr.iter().zip(weights.iter()) {
         weight_sum += w;
         let x_minus_mean = x - mean;
-        mean += (w / weight_sum) * x_minus_mean;
+        // While only zero weights have been seen `w / weight_sum` is 0/0: an
+        // observation of zero weight must leave the running mean alone.
+        if w != zero {
+            mean += (w / weight_sum) * x_minus_mean;
+        }
         s += w * x_minus_mean * (x - mean);
     }
     Ok(s / (weight_sum - ddof))
